@@ -108,7 +108,19 @@ def _sources(rng, neq, subset):
             out.append(fn)
         else:
             out.append(Counted(rng, neq, i))
+    live = [i for i in range(neq) if out[i] is not None]
+    if len(live) >= 2 and rng.random() < 0.25:
+        # the SAME callable object declared for several equations (one damping law for mass and momentum, a sponge on every
+        # equation): each of those equations receives it once
+        keep = live[int(rng.integers(len(live)))]
+        for j in (live if rng.random() < 0.5 else live[:2] if keep in live[:2] else [keep, live[0]]):
+            out[j] = out[keep]
     return out
+
+
+def _mult(src, i):
+    """how many equations carry the very object src[i] (it is then called that many times per evaluation)"""
+    return sum(1 for s_ in src if s_ is src[i])
 
 
 def _section(rng, L, kind=None):
@@ -163,7 +175,7 @@ def user_sources(ctx, rng, idx):
                 sc = max(np.max(np.abs(R0[i])), np.max(np.abs(exp))) + 1e-300
                 ctx.close(mname, np.max(np.abs((R1[i] - R0[i]) - exp)) / sc, TOL, "%s/source-not-added-once-to-its-own-equation/eq%d%s" % (mname, i, "" if call == 0 else "/repeated-call"),
                           {"subset": sorted(sub), "call": call, "source kind": src[i].mode}, cls=mname)
-                ctx.true("called-once", _calls(src[i]) == call + 1, "%s/source-callable-not-called-exactly-once" % mname, {"calls": _calls(src[i]), "eq": i, "rhs calls": call + 1}, cls="called-once")
+                ctx.true("called-once", _calls(src[i]) == (call + 1) * _mult(src, i), "%s/source-callable-not-called-exactly-once" % mname, {"calls": _calls(src[i]), "eq": i, "rhs calls": call + 1}, cls="called-once")
                 ctx.true("source-array-untouched", src[i].untouched(), "%s/array-returned-by-user-source-modified" % mname, {"eq": i}, cls=mname)
         ctx.true("field-untouched", all(np.array_equal(a, b) for a, b in zip(f1.data, fcopy)), "%s/field-modified-by-rhs" % mname, None, cls=mname)
     ctx.nontrivial(mname, sorted(sub), s0.desc())
@@ -247,7 +259,7 @@ def nozzle_user(ctx, rng, idx):
                 sc = max(np.max(np.abs(R0[i])), np.max(np.abs(exp))) + 1e-300
                 ctx.close("nozzle-user-sources", np.max(np.abs((R1[i] - R0[i]) - exp)) / sc, 1e-11, "nozzle/user-source-not-added-to-geometric-source/eq%d%s" % (i, "" if call == 0 else "/repeated-call"),
                           {"subset": sorted(sub), "call": call, "source kind": src[i].mode}, cls="nozzle-user-sources")
-                ctx.true("called-once", _calls(src[i]) == call + 1, "nozzle/source-callable-not-called-exactly-once", {"calls": _calls(src[i]), "eq": i}, cls="called-once")
+                ctx.true("called-once", _calls(src[i]) == (call + 1) * _mult(src, i), "nozzle/source-callable-not-called-exactly-once", {"calls": _calls(src[i]), "eq": i}, cls="called-once")
                 ctx.true("source-array-untouched", src[i].untouched(), "nozzle/array-returned-by-user-source-modified", {"eq": i}, cls="nozzle-user-sources")
         ctx.true("field-untouched", all(np.array_equal(a, b) for a, b in zip(f1.data, fcopy)), "nozzle/field-modified-by-rhs", None, cls="nozzle-user-sources")
     # a second nozzle built afterwards without sources must not have inherited them (no shared state between instances)
